@@ -128,6 +128,7 @@ func newMachine(P *Program, ctx *Ctx, solver *Solver, cfg *JobCfg, stats *Stats)
 	m.pools = map[uint64]*PoolState{}
 	m.mutexes = map[uint64]bool{}
 	m.reached = map[string]bool{}
+	m.violSeen = map[string]int{}
 	m.stepLimit = cfg.StepLimit
 	m.poolPolicy = cfg.PoolPolicy
 	m.allocBytes = ctx.Const(0, 64)
